@@ -154,10 +154,19 @@ def uid_of(e):
     return u
 
 
+PREDECESSORS = [["--event_limit", '{"count": 3}'], ["--event_limit", '{"skip": 2, "ts_end": 1000000100.0}'],
+                ["--event_filter", "name:hostop"], ["-F", "C"], ["--drop_globals"], ["-O", "drop"], ["--keep_prep"]]
+
+
 def e2e_job(job):
     from gen import rich
-    spec, opts, with_I = job
+    spec, opts, with_I = job[:3]
+    pre = job[3] if len(job) > 3 else None
     files, slices = rich.build(spec)
+    if pre is not None:
+        # an earlier run of the documented API in the SAME process, with other options: whatever it leaves behind
+        # must not remove (or duplicate) a slice of the run under test
+        stage.e2e(["--freq", "512"] + expand_opts(pre), files)
     argv = ["--freq", "512"] + expand_opts(opts) + (["-I"] if with_I else [])
     r = stage.e2e(argv, files, keep_dir=with_I)
     res = {"rc": r["rc"], "error": r["error"], "exported": None, "stages": None}
@@ -290,7 +299,7 @@ def check_stage_contracts(ctx, case, res, classes):
 
 
 def oracle_on_case(ctx: Ctx, case, verbose=False):
-    res, slices = e2e_job((case["spec"], case["opts"], case.get("with_I", False)))
+    res, slices = e2e_job((case["spec"], case["opts"], case.get("with_I", False), case.get("pre")))
     vs = judge(case, res, slices, glb_names())
     if verbose:
         print({"rc": res["rc"], "error": res["error"], "exported": len(res["exported"] or []), "violations": vs[:5]})
@@ -310,8 +319,9 @@ def run(ctx: Ctx):
         osets = OPTION_SETS if not ctx.quick() else [OPTION_SETS[0]] + rng.sample(OPTION_SETS[1:], 7)
         for oi, o in enumerate(osets):
             with_I = (oi % 4 == 0) or (o[:2] == ["-O", "drop"])
-            cases.append({"spec": spec, "opts": o, "with_I": with_I})
-            jobs.append((spec, o, with_I))
+            pre = rng.choice(PREDECESSORS) if oi % 3 == 1 else None
+            cases.append({"spec": spec, "opts": o, "with_I": with_I, "pre": pre})
+            jobs.append((spec, o, with_I, pre))
     results = par.pmap(e2e_job, jobs)
     lines, pending = [], []
     for case, (res, slices) in zip(cases, results):
@@ -325,6 +335,7 @@ def run(ctx: Ctx):
         ov = opt_view(case["opts"])
         n_removed = len(slices) - len(res["exported"] or [])
         ctx.count("runs")
+        ctx.count("runs_after_an_in_process_predecessor", int(case.get("pre") is not None))
         ctx.count("input_slices", len(slices))
         ctx.count("exported_slices", len(res["exported"] or []))
         ctx.case_done(case, key=json.dumps(case, sort_keys=True), nontrivial=bool(res["exported"]) and n_removed > 0)
